@@ -5,7 +5,7 @@ from __future__ import annotations
 import ast
 
 from .c09_terms import Unsup, is_tag, is_const, subterms, tmap, show, first_diff, ZEROS, EMPTY, MP_NAMES, World
-from .c09_sim import Sim, Frame, PathDead, _Return, _walk_scope
+from .c09_sim import Sim, Frame, PathDead, _Return, _walk_scope, test_dump
 
 MAXLEAVES = 1500
 
@@ -183,3 +183,35 @@ def diff_text(a, b):
     if d is None:
         return None
     return {"parallel": show(d[0])[:400], "serial": show(d[1])[:400]}
+
+
+def mode_atoms(leaves):
+    """the tests that tell the parallel mode from the serial mode: wherever they are decided, one way on all parallel paths and the other way on
+    all serial paths"""
+    P = [lf for lf in leaves if lf.parallel]
+    S = [lf for lf in leaves if not lf.parallel]
+    mode = set()
+    for a in set().union(*[set(lf.assign) for lf in leaves]) if leaves else ():
+        vp = {lf.assign[a] for lf in P if a in lf.assign}
+        vs = {lf.assign[a] for lf in S if a in lf.assign}
+        if len(vp) == 1 and len(vs) == 1 and vp != vs:
+            mode.add(a)
+    return mode
+
+
+def extend_join(fn, K, leaves):
+    """the serial arm may sit in a later statement than the pool (`if parallel == "yes": ...` followed by `if parallel != "yes": ...`): the
+    join is the last top-level statement that tests the mode again"""
+    mode = mode_atoms(leaves)
+    dumps = set()
+    for lf in leaves:
+        for a in mode:
+            dumps |= lf.sim.atom_nodes.get(a, set())
+    k = K
+    for i in range(K + 1, len(fn.body)):
+        for n in ast.walk(fn.body[i]):
+            if isinstance(n, ast.expr) and isinstance(n, (ast.Compare, ast.Name, ast.UnaryOp, ast.Attribute, ast.Call)) and test_dump(n) in dumps:
+                par = getattr(n, "_vparent", None)
+                if isinstance(par, (ast.If, ast.IfExp, ast.BoolOp, ast.UnaryOp, ast.While)):
+                    k = i
+    return k
